@@ -3,7 +3,8 @@ runner (models evaluated inside Coq by vm_compute), evidence, replays, findings.
 import glob, hashlib, json, os, random, re, shutil, subprocess, sys, time
 
 VERIF = os.path.dirname(os.path.dirname(os.path.dirname(os.path.abspath(__file__))))
-COQ = os.path.join(VERIF, "coq")
+COQ = os.environ.get("VERIF_COQ_DIR") or os.path.join(VERIF, "coq")
+OUT = os.environ.get("VERIF_OUT_DIR") or VERIF     # evidence/ and replays/ are written below this
 CASES_DIR = os.path.join(COQ, "Cases")
 SCRATCH = os.path.join(COQ, ".scratch")
 NPROC = min(16, os.cpu_count() or 4)
@@ -39,7 +40,25 @@ def sh(cmd, timeout, cwd=None, env=None):
         return 124, out + "\n[timeout after %ss]" % timeout
 
 
+class build_lock:
+    """serialises make / Gen regeneration of concurrent ./check runs that share one coq directory"""
+    def __enter__(self):
+        import fcntl
+        self.f = open(os.path.join(COQ, ".buildlock"), "w")
+        fcntl.flock(self.f, fcntl.LOCK_EX)
+
+    def __exit__(self, *a):
+        import fcntl
+        fcntl.flock(self.f, fcntl.LOCK_UN)
+        self.f.close()
+
+
 def ensure_makefile():
+    with build_lock():
+        _ensure_makefile()
+
+
+def _ensure_makefile():
     from tools import mkproject
     mkproject.write()
     mk = os.path.join(COQ, "Makefile")
@@ -93,7 +112,8 @@ def build_props(prop, timeout=1500):
     targets = ["Props/%s.vo" % prop]
     if os.path.exists(os.path.join(COQ, "Harness", "H%s.v" % prop[1:])):
         targets.append("Harness/H%s.vo" % prop[1:])
-    rc, out = sh(["make", "-j%d" % NPROC] + targets, timeout, cwd=COQ)
+    with build_lock():
+        rc, out = sh(["make", "-j%d" % NPROC] + targets, timeout, cwd=COQ)
     res["log"] = out[-6000:]
     if rc != 0:
         res["broken"] = locate_failure(out, names, src)
@@ -305,14 +325,22 @@ def pattern(a, c, length):
 def load_known():
     """known_findings.json (committed, never written at run time)"""
     path = os.path.join(VERIF, "known_findings.json")
-    if not os.path.exists(path):
-        return []
-    with open(path, encoding="utf-8") as f:
-        return json.load(f)
+    out = []
+    if os.path.exists(path):
+        with open(path, encoding="utf-8") as f:
+            out = json.load(f)
+    # per-property files findings/Cxx.json (same record format, committed) are merged in
+    have = {(k.get("property"), k.get("signature")) for k in out}
+    for fp in sorted(glob.glob(os.path.join(VERIF, "findings", "C*.json"))):
+        with open(fp, encoding="utf-8") as f:
+            for k in json.load(f):
+                if (k.get("property"), k.get("signature")) not in have:
+                    out.append(k)
+    return out
 
 
 def write_replay(ctx, payload):
-    d = os.path.join(VERIF, "replays")
+    d = os.path.join(OUT, "replays")
     os.makedirs(d, exist_ok=True)
     body = json.dumps(payload, indent=1, sort_keys=True, default=repr)
     h = hashlib.sha256(body.encode()).hexdigest()[:10]
@@ -323,11 +351,11 @@ def write_replay(ctx, payload):
 
 
 def write_evidence(ctx, coverage, assumptions, violations):
-    os.makedirs(os.path.join(VERIF, "evidence"), exist_ok=True)
+    os.makedirs(os.path.join(OUT, "evidence"), exist_ok=True)
     ev = {"property_id": ctx.prop, "tier": ctx.tier, "seed": ctx.seed, "level": "proof",
           "coverage": coverage, "assumptions": assumptions, "wall_s": round(time.time() - ctx.t0, 2),
           "violations": violations}
-    path = os.path.join(VERIF, "evidence", ctx.prop + ".json")
+    path = os.path.join(OUT, "evidence", ctx.prop + ".json")
     with open(path + ".tmp", "w", encoding="utf-8") as f:
         json.dump(ev, f, indent=1, sort_keys=True, default=repr)
     os.replace(path + ".tmp", path)
